@@ -146,6 +146,7 @@ def run(ctx):
                 for s in seeds:
                     runs.append((nt, 40 if quick else 400, s, 0, mode))
             for s in seeds: runs.append((nt, 30 if quick else 200, s, 1, 7))
+            for s in seeds[:2 if quick else 6]: runs.append((nt, 12 if quick else 45, s, 2, 7))     # failing tests with formatted texts
     seen = set()
     env_t = dict(os.environ, TSAN_OPTIONS="halt_on_error=0:report_signal_unsafe=0:history_size=4:second_deadlock_stack=1")
     env_a = dict(os.environ, ASAN_OPTIONS="detect_leaks=1:max_allocation_size_mb=512", LSAN_OPTIONS="report_objects=0")
@@ -183,6 +184,17 @@ def run(ctx):
                         ctx.add_witness("stress", [line], [l], [], "%s (%d threads, %s)" % (l[4:], r[0], which))
                 if not any(l.startswith(("ok ", "FAILED")) for l in o.splitlines()) and which.startswith("Thread") and rc1 not in (0, 66):
                     ctx.add_witness("stress", [line], [e1[-600:]], [], "the stress run died (exit %s)" % rc1)
+            if len(r) > 3 and r[3] == 2:
+                # every failing expectation's formatted text reaches the report as the thread wrote it
+                want = set((t, k) for t in range(1, min(r[0], 16), 2) for k in range(0, r[1], 3))
+                for e, which in ((e1, "ThreadSanitizer build"), (e2, "AddressSanitizer build")):
+                    got = set((int(t), int(k)) for t, k, m in re.findall(r"<<t(\d+):r(\d+):(m*)>>", e) if len(m) == 10 + (int(t) * 7 + int(k)) % 150)
+                    if want - got and "Sanitizer: " not in e:
+                        nbad += 1
+                        t, k = sorted(want - got)[0]
+                        ctx.add_witness("stress", [line], [e[-800:]], [], "the text of the failing expectation of thread %d, test %d is missing from or mixed up in the "
+                                        "report (%d of %d texts intact; %s)" % (t, k, len(want & got), len(want), which))
+                        break
             for summ, blk in tsan_reports(e1):
                 key = re.sub(r"0x[0-9a-f]+|T\d+|size \d+", "", summ)
                 if key in seen: continue
